@@ -29,14 +29,14 @@ _parts = importlib.util.module_from_spec(_spec); _spec.loader.exec_module(_parts
 
 PROP = {
     "level_text": "Bounded model checking of the real partitionLocker.lock/unlock with SYMBOLIC SCHEDULES: the SSA of the thread programs is turned into control-flow automata over the visible operations (Lock/Unlock, Cond.Wait/Broadcast, shared-map accesses, critical-section markers); B global steps are unrolled with a symbolic thread id per step and symbolic keys, and one solver query per property covers every interleaving. A 'bound' query (must be unsat) shows that every schedule terminates within B, so the verdicts are complete for the stated thread/round counts.",
-    "level_note": "Covers part K of C14 (per-key mutual exclusion, deadlock freedom, no unlock-of-unlocked/Wait-without-lock/unprotected map access) for T <= 3 threads (thorough: 4 threads, and 2 lock rounds per thread), 2 keys. sync.Mutex/sync.Cond follow the Go contract (a woken waiter has no priority; Broadcast wakes all). The atomic-block jobs rely on lock discipline, which is checked on the automaton; the fine-grained job does not. Parts (C) and (W) — the cache step of processJob/queryCache and the worker bound of StartWorkers/queryWorker — are sequential symbolic-execution jobs of the same check (props/C14_parts.py): " + _parts.PROP["level_text"] + " Part (S), the single-flight wiring, runs the real Query/Config/Flags/Metadata with the keyed lock cut to an event log and the harness playing the worker pool: lock(k) < enqueue < unlock(k) on the success and the error path, one request per call, k = endpoint path + question text (RangeQuery's wiring is exercised by C13's rq-* jobs); ratelimit and real timing are outside the claim.",
+    "level_note": "Covers part K of C14 (per-key mutual exclusion, deadlock freedom, no unlock-of-unlocked/Wait-without-lock/unprotected map access) for T <= 3 threads (thorough: 4 threads with one round, 2 threads with 2 lock rounds), 2 keys. sync.Mutex/sync.Cond follow the Go contract (a woken waiter has no priority; Broadcast wakes all). The atomic-block jobs rely on lock discipline, which is checked on the automaton; the fine-grained job does not. Parts (C) and (W) — the cache step of processJob/queryCache and the worker bound of StartWorkers/queryWorker — are sequential symbolic-execution jobs of the same check (props/C14_parts.py): " + _parts.PROP["level_text"] + " Part (S), the single-flight wiring, runs the real Query/Config/Flags/Metadata with the keyed lock cut to an event log and the harness playing the worker pool: lock(k) < enqueue < unlock(k) on the success and the error path, one request per call, k = endpoint path + question text (RangeQuery's wiring is exercised by C13's rq-* jobs); ratelimit and real timing are outside the claim.",
     "technique": "bounded model checking with symbolic schedules: go/ssa -> control-flow automata of visible operations -> SMT (z3, bit-vectors), B-step unrolling with a symbolic thread id per step; counterexample schedules replayed against the real code with real goroutines through a gated sync.Locker",
     "runs": [{"pkg": "./internal/promapi", "harness": ["harness/C14/keylock.go"], "native_tests": ["harness/C14/keylock_native_test.go"], "intmode": True, "bmc": bmc,
               "timeout_ms": 1800000}]  # one query per property over the whole unrolling: the thorough jobs need minutes
             + _parts.PROP["runs"]
             # part (S): lock < enqueue < unlock with one injective key in the real Query/Config/Flags/Metadata
             + [{"pkg": "./internal/promapi", "harness": ["harness/C14/wiring.go"], "intmode": True, "jobs": wiring_jobs}],  # parts (C) cache step and (W) worker bound, see props/C14_parts.py
-    "bounds": {"parts C/W": _parts.PROP["bounds"], "threads": "2-3 (thorough 4)", "lock rounds per thread": "1 (thorough 2)", "keys": 2, "steps": "24 fine-grained / 12-24 fused (thorough up to 48); the bound query shows these suffice for every schedule"},
+    "bounds": {"parts C/W": _parts.PROP["bounds"], "threads": "2-3 (thorough 4)", "lock rounds per thread": "1 (thorough: 2 for two threads)", "keys": 2, "steps": "24 fine-grained / 12-24 fused (thorough up to 64); the bound query shows these suffice for every schedule"},
     "assumptions": ["sync.Mutex and sync.Cond behave as documented", "fused jobs: lock discipline (checked statically on the automaton)"] + _parts.PROP["assumptions"],
     "outside": ["worker pool, channels, ratelimit, real timing", "data races other than accesses to the lock's own map"],
 }
